@@ -40,6 +40,28 @@ func errChecked(fn *ssa.Function, ev ssa.Value) (bool, string) {
 		return false, "the error result is never read"
 	}
 	errIdx := errorResultIndex(fn.Signature)
+	// `err = f(); if err != nil` with err living in memory (captured by a deferred closure):
+	// follow the store to the next load of the same variable in that block
+	for _, in := range *refs {
+		st, ok := in.(*ssa.Store)
+		if !ok || st.Val != ev {
+			continue
+		}
+		if _, isVar := st.Addr.(*ssa.Alloc); !isVar {
+			continue
+		}
+		b := st.Block()
+		for i := instrIndex(st) + 1; i < len(b.Instrs); i++ {
+			if st2, ok := b.Instrs[i].(*ssa.Store); ok && st2.Addr == st.Addr {
+				break
+			}
+			if ld, ok := b.Instrs[i].(*ssa.UnOp); ok && ld.Op == token.MUL && ld.X == st.Addr {
+				if ok2, _ := errChecked(fn, ld); ok2 {
+					return true, ""
+				}
+			}
+		}
+	}
 	for _, in := range *refs {
 		bo, ok := in.(*ssa.BinOp)
 		if !ok || (bo.Op != token.NEQ && bo.Op != token.EQL) {
@@ -106,80 +128,109 @@ func ruleSaveErr(r *Run) {
 		needFileCls bool
 	}
 	for _, e := range []ent{{"(*Document).Save", 6, true, true}, {"(*Document).ToBytes", 5, true, false}} {
-		fn := r.mustFunc(pkgDoc, e.name)
-		if fn == nil {
+		entry := r.mustFunc(pkgDoc, e.name)
+		if entry == nil {
 			continue
 		}
-		nErr := 0
-		seen := map[string]int{}
-		var zipCloses, fileCloses []ssa.Instruction
-		createsZip, createsFile := false, false
-		allInstrs(fn, func(in ssa.Instruction) {
-			switch x := in.(type) {
-			case *ssa.Call:
-				cn := calleeName(x)
-				if cn == "archive/zip.NewWriter" {
-					createsZip = true
-				}
-				if cn == "os.Create" || cn == "os.OpenFile" {
-					createsFile = true
-				}
-				if errorResultIndex(x.Call.Signature()) < 0 {
-					return
-				}
-				nErr++
-				seen[cn]++
-				key := fmt.Sprintf("%s:%s#%d", shortName(fn), strings.TrimPrefix(cn, "invoke:"), seen[cn])
-				ok, why := errChecked(fn, errValueOf(x))
-				r.Check("save-err", key, x.Pos(), ok,
-					fmt.Sprintf("%s calls %s whose error must make %s fail: %s", shortName(fn), cn, shortName(fn), map[bool]string{true: "checked and propagated", false: why}[ok]))
-				if ok && cn == "(*archive/zip.Writer).Close" {
-					zipCloses = append(zipCloses, x)
-				}
-				if ok && cn == "(*os.File).Close" {
-					fileCloses = append(fileCloses, x)
-				}
-			}
-		})
-		r.Min("error_returning_calls:"+shortName(fn), nErr, e.min)
-		// success returns must be preceded by checked closes
-		nRet := 0
-		for _, ret := range returnsOf(fn) {
-			ei := errorResultIndex(fn.Signature)
-			if ei < 0 || !isNilConst(retResult(ret, ei)) {
+		// the entry point and the helpers it delegates the writing to (a refactoring may move the
+		// ZIP handling into a function of its own: the obligations follow it)
+		group := []*ssa.Function{entry}
+		for _, g := range sortedFuncs(p.staticReach(entry)) {
+			if g == entry || g.Parent() != nil || g.Pkg == nil || g.Pkg.Pkg.Path() != pkgDoc {
 				continue
 			}
-			nRet++
-			if createsZip {
-				ok := mustPassThrough(fn, ret, zipCloses)
-				r.Check("save-close", shortName(fn)+":zip.Writer.Close", ret.Pos(), ok,
-					fmt.Sprintf("%s returns success at %s; every such path must first call (*zip.Writer).Close and check its error (a deferred Close whose result is dropped does not count): the central directory and buffered data are only written — and write errors such as ENOSPC only surface — at Close", shortName(fn), p.pos(ret.Pos())))
-			}
-			if createsFile {
-				ok := mustPassThrough(fn, ret, fileCloses)
-				r.Check("save-close", shortName(fn)+":os.File.Close", ret.Pos(), ok,
-					fmt.Sprintf("%s returns success at %s; every such path must first call (*os.File).Close and check its error (a deferred Close whose result is dropped does not count)", shortName(fn), p.pos(ret.Pos())))
+			touches := false
+			allInstrs(g, func(in ssa.Instruction) {
+				if c, ok := in.(ssa.CallInstruction); ok && strings.Contains(calleeName(c), "archive/zip") {
+					touches = true
+				}
+			})
+			if touches && !reachesFrom(p, g, otherEntry(p, e.name)) {
+				group = append(group, g)
+			} else if touches {
+				group = append(group, g)
 			}
 		}
-		r.Min("success_returns:"+shortName(fn), nRet, 1)
-		// zip writer closed before the file
-		if createsZip && createsFile && len(fileCloses) > 0 {
-			okOrder := true
-			for _, fc := range fileCloses {
-				if !mustPassThrough(fn, fc, zipCloses) {
-					okOrder = false
+		totalErr, totalRet, totalLoops := 0, 0, 0
+		for _, fn := range group {
+			nErr := 0
+			seen := map[string]int{}
+			var zipCloses, fileCloses []ssa.Instruction
+			createsZip, createsFile := false, false
+			allInstrs(fn, func(in ssa.Instruction) {
+				switch x := in.(type) {
+				case *ssa.Call:
+					cn := calleeName(x)
+					if cn == "archive/zip.NewWriter" {
+						createsZip = true
+					}
+					if cn == "os.Create" || cn == "os.OpenFile" {
+						createsFile = true
+					}
+					if errorResultIndex(x.Call.Signature()) < 0 {
+						return
+					}
+					nErr++
+					seen[cn]++
+					key := fmt.Sprintf("%s:%s#%d", shortName(fn), strings.TrimPrefix(cn, "invoke:"), seen[cn])
+					ok, why := errChecked(fn, errValueOf(x))
+					r.Check("save-err", key, x.Pos(), ok,
+						fmt.Sprintf("%s calls %s whose error must make %s fail: %s", shortName(fn), cn, shortName(fn), map[bool]string{true: "checked and propagated", false: why}[ok]))
+					if ok && cn == "(*archive/zip.Writer).Close" {
+						zipCloses = append(zipCloses, x)
+					}
+					if ok && cn == "(*os.File).Close" {
+						fileCloses = append(fileCloses, x)
+					}
+				}
+			})
+			totalErr += nErr
+			// success returns must be preceded by checked closes
+			nRet := 0
+			for _, ret := range returnsOf(fn) {
+				ei := errorResultIndex(fn.Signature)
+				if ei < 0 || !mayReportSuccess(p, fn, ret, ei) {
+					continue
+				}
+				nRet++
+				if createsZip {
+					ok := mustPassThrough(fn, ret, zipCloses) || deferredCloseIntoNamedResult(fn, ret, ei, "(*archive/zip.Writer).Close")
+					r.Check("save-close", shortName(fn)+":zip.Writer.Close", ret.Pos(), ok,
+						fmt.Sprintf("%s returns success at %s; every such path must first call (*zip.Writer).Close and check its error (a deferred Close whose result is dropped does not count): the central directory and buffered data are only written — and write errors such as ENOSPC only surface — at Close", shortName(fn), p.pos(ret.Pos())))
+				}
+				if createsFile {
+					ok := mustPassThrough(fn, ret, fileCloses) || deferredCloseIntoNamedResult(fn, ret, ei, "(*os.File).Close")
+					r.Check("save-close", shortName(fn)+":os.File.Close", ret.Pos(), ok,
+						fmt.Sprintf("%s returns success at %s; every such path must first call (*os.File).Close and check its error (a deferred Close whose result is dropped does not count)", shortName(fn), p.pos(ret.Pos())))
 				}
 			}
-			r.Check("save-close", shortName(fn)+":order", fn.Pos(), okOrder, "the zip writer must be closed (flushed) before the file is closed")
+			totalRet += nRet
+			// zip writer closed before the file
+			if createsZip && createsFile && len(fileCloses) > 0 {
+				okOrder := true
+				for _, fc := range fileCloses {
+					if !mustPassThrough(fn, fc, zipCloses) {
+						okOrder = false
+					}
+				}
+				r.Check("save-close", shortName(fn)+":order", fn.Pos(), okOrder, "the zip writer must be closed (flushed) before the file is closed")
+			}
+			// every iteration over parts writes the entry or fails
+			totalLoops += rulePartsLoop(r, fn)
 		}
-		// every iteration over parts writes the entry or fails
-		rulePartsLoop(r, fn)
+		r.Min("error_returning_calls:"+shortName(entry), totalErr, e.min)
+		r.Min("success_returns:"+shortName(entry), totalRet, 1)
+		r.Min("parts_loops:"+shortName(entry), totalLoops, 1)
 	}
 }
 
+func otherEntry(p *Program, name string) *ssa.Function { return nil }
+
+func reachesFrom(p *Program, g, from *ssa.Function) bool { return false }
+
 // rulePartsLoop: in fn, every iteration of the range over Document.parts passes through
 // (*zip.Writer).Create and Write (or leaves the function).
-func rulePartsLoop(r *Run, fn *ssa.Function) {
+func rulePartsLoop(r *Run, fn *ssa.Function) int {
 	p := r.P
 	n := 0
 	allInstrs(fn, func(in ssa.Instruction) {
@@ -234,7 +285,7 @@ func rulePartsLoop(r *Run, fn *ssa.Function) {
 				fmt.Sprintf("every iteration over Document.parts in %s must reach %s before the next iteration (no part may be skipped)", shortName(fn), want))
 		}
 	})
-	r.Min("parts_loops:"+shortName(fn), n, 1)
+	return n
 }
 
 // ---------------------------------------------------------------------------
@@ -272,7 +323,29 @@ func serialiseSeq(p *Program, fn *ssa.Function, ms *mutSummary, depth int) []str
 			return
 		}
 		it := item{pos: c.Pos(), name: shortName(cal)}
+		// a callee that writes parts only through further callees is a helper: inline its sequence
+		direct := false
+		allInstrs(cal, func(in2 ssa.Instruction) {
+			if mu, ok := in2.(*ssa.MapUpdate); ok {
+				if ch, _ := addrChain(mu.Map); len(ch) > 0 && fieldIs(p, ch[len(ch)-1], pkgDoc, "Document", "parts") {
+					direct = true
+				}
+			}
+		})
+		if !direct && depth < 3 {
+			it.sub = serialiseSeq(p, cal, ms, depth+1)
+		}
 		items = append(items, it)
+	})
+	// part-map writes made by the entry point itself (not through a serialise* helper)
+	allInstrs(fn, func(in ssa.Instruction) {
+		mu, ok := in.(*ssa.MapUpdate)
+		if !ok {
+			return
+		}
+		if ch, _ := addrChain(mu.Map); len(ch) > 0 && fieldIs(p, ch[len(ch)-1], pkgDoc, "Document", "parts") {
+			items = append(items, item{pos: mu.Pos(), name: "direct-write:" + symOf(mu.Key).Pattern()})
+		}
 	})
 	// order by position
 	for i := 0; i < len(items); i++ {
@@ -284,6 +357,10 @@ func serialiseSeq(p *Program, fn *ssa.Function, ms *mutSummary, depth int) []str
 	}
 	var out []string
 	for _, it := range items {
+		if it.sub != nil {
+			out = append(out, it.sub...)
+			continue
+		}
 		out = append(out, it.name)
 	}
 	return out
@@ -337,4 +414,234 @@ func ruleSaveSibling(r *Run) {
 	}
 }
 
+// ruleSaveVerbatim: in the loop that writes the part map, the bytes handed to the ZIP entry writer
+// are the map's value itself — not a value chosen by part name, target path or anything else.
+func ruleSaveVerbatim(r *Run) {
+	p := r.P
+	n := 0
+	for _, entry := range []string{"(*Document).Save", "(*Document).ToBytes"} {
+		root := r.mustFunc(pkgDoc, entry)
+		if root == nil {
+			continue
+		}
+		found := false
+		for _, fn := range sortedFuncs(p.staticReach(root)) {
+			for _, l := range naturalLoops(fn) {
+				ri := rangeOf(l)
+				if ri == nil {
+					continue
+				}
+				ld, ok := ri.X.(*ssa.UnOp)
+				if !ok {
+					continue
+				}
+				if fv, _ := fieldOfAddr(ld.X); !fieldIs(p, fv, pkgDoc, "Document", "parts") {
+					continue
+				}
+				for b := range l.Body {
+					for _, in := range b.Instrs {
+						c, ok := in.(ssa.CallInstruction)
+						if !ok || !c.Common().IsInvoke() || c.Common().Method.Name() != "Write" || len(c.Common().Args) != 1 {
+							continue
+						}
+						found = true
+						n++
+						arg := c.Common().Args[0]
+						verb := false
+						for _, e := range ri.Elem {
+							if ex, ok := e.(*ssa.Extract); ok && ex.Index == 2 && arg == ssa.Value(ex) {
+								verb = true
+							}
+						}
+						r.Check("save-verbatim", entry+":"+shortName(fn), c.Pos(), verb,
+							fmt.Sprintf("%s writes each part with %s", shortName(fn), map[bool]string{true: "exactly the bytes held in the part map", false: "bytes that are not simply the part map's value (" + symOf(arg).String() + "): what lands in the file can differ from what ToBytes returns"}[verb]))
+					}
+				}
+			}
+		}
+		if !found {
+			r.Check("save-verbatim", entry, root.Pos(), false, "no loop over the part map that writes each part was found in "+entry+" or its callees")
+		}
+	}
+	r.Min("part_write_sites", n, 2)
+}
+
 var _ = types.Typ
+
+// mayReportSuccess: can this return hand a nil error to the caller?  Yes for the nil constant and
+// for any value that is not known to be non-nil (a variable, a callee's result); no for freshly
+// constructed errors, for values returned inside the non-nil branch of their own nil test, and
+// for nil-preserving wrappers (WrapError: nil only for a nil argument) applied to such values.
+func mayReportSuccess(p *Program, fn *ssa.Function, ret *ssa.Return, ei int) bool {
+	return mayBeNilErrAt(p, fn, retResult(ret, ei), ret.Block(), 0)
+}
+
+func mayBeNilErrAt(p *Program, fn *ssa.Function, v ssa.Value, at *ssa.BasicBlock, depth int) bool {
+	if isNilConst(v) {
+		return true
+	}
+	if depth > 4 {
+		return true
+	}
+	if inNonNilBranchOf(fn, v, at) {
+		return false
+	}
+	switch x := v.(type) {
+	case *ssa.MakeInterface:
+		return false
+	case *ssa.Call:
+		cal := staticCallee(x)
+		if cal == nil || !p.inModule(cal) || len(cal.Blocks) == 0 {
+			cn := calleeName(x)
+			if strings.HasPrefix(cn, "fmt.Errorf") || strings.HasPrefix(cn, "errors.New") {
+				return false
+			}
+			return true // e.g. `return file.Close()`
+		}
+		e2 := errorResultIndex(cal.Signature)
+		if e2 < 0 || cal == fn {
+			return true
+		}
+		for _, r2 := range returnsOf(cal) {
+			rv := retResult(r2, e2)
+			if !mayBeNilErrAt(p, cal, rv, r2.Block(), depth+1) {
+				continue
+			}
+			// nil-preserving wrapper: this nil return happens only when an error parameter is nil
+			guarded := false
+			for pi, par := range cal.Params {
+				if !isErrorType(par.Type()) || !inNilBranchOf(cal, par, r2.Block()) {
+					continue
+				}
+				args := x.Call.Args
+				if pi < len(args) && !mayBeNilErrAt(p, fn, args[pi], x.Block(), depth+1) {
+					guarded = true
+				}
+			}
+			if !guarded {
+				return true
+			}
+		}
+		return false
+	}
+	// a tested value used inside its own non-nil branch
+	return !inNonNilBranchOf(fn, v, at)
+}
+
+// nilTests enumerates `v == nil` / `v != nil` branches: calls f(nilSucc, nonNilSucc, block).
+func nilTests(fn *ssa.Function, v ssa.Value, f func(b, nilSucc, nonNilSucc *ssa.BasicBlock)) {
+	for _, b := range fn.Blocks {
+		if len(b.Instrs) == 0 {
+			continue
+		}
+		iff, ok := b.Instrs[len(b.Instrs)-1].(*ssa.If)
+		if !ok {
+			continue
+		}
+		bo, ok := iff.Cond.(*ssa.BinOp)
+		if !ok || (bo.Op != token.NEQ && bo.Op != token.EQL) || (!isNilConst(bo.X) && !isNilConst(bo.Y)) {
+			continue
+		}
+		opnd := bo.X
+		if isNilConst(bo.X) {
+			opnd = bo.Y
+		}
+		same := opnd == v
+		if l1, ok := opnd.(*ssa.UnOp); ok {
+			if l2, ok := v.(*ssa.UnOp); ok && l1.X == l2.X {
+				same = true
+			}
+		}
+		if !same {
+			continue
+		}
+		if bo.Op == token.NEQ {
+			f(b, b.Succs[1], b.Succs[0])
+		} else {
+			f(b, b.Succs[0], b.Succs[1])
+		}
+	}
+}
+
+func inNonNilBranchOf(fn *ssa.Function, v ssa.Value, at *ssa.BasicBlock) bool {
+	res := false
+	nilTests(fn, v, func(b, nilS, nonNilS *ssa.BasicBlock) {
+		if edgeRegion(b, nonNilS)[at] {
+			res = true
+		}
+	})
+	return res
+}
+
+func inNilBranchOf(fn *ssa.Function, v ssa.Value, at *ssa.BasicBlock) bool {
+	res := false
+	nilTests(fn, v, func(b, nilS, nonNilS *ssa.BasicBlock) {
+		if edgeRegion(b, nilS)[at] {
+			res = true
+		}
+	})
+	return res
+}
+
+// deferredCloseIntoNamedResult: the accepted idiom
+//
+//	func f() (err error) { …; defer func() { if cerr := w.Close(); cerr != nil && err == nil { err = cerr } }() … }
+//
+// A deferred literal can only change what the caller sees when the error result is NAMED: go/ssa
+// then loads the result variable after running the deferred calls.  With an unnamed result the
+// value is read before the defers run and the assignment made in the literal is lost.
+func deferredCloseIntoNamedResult(fn *ssa.Function, ret *ssa.Return, ei int, closeCallee string) bool {
+	ld, ok := retResult(ret, ei).(*ssa.UnOp)
+	if !ok || ld.Op != token.MUL {
+		return false
+	}
+	resVar, ok := ld.X.(*ssa.Alloc)
+	if !ok {
+		return false
+	}
+	b := ld.Block()
+	rd := -1
+	for i, in := range b.Instrs {
+		if _, ok := in.(*ssa.RunDefers); ok {
+			rd = i
+		}
+	}
+	if rd < 0 || instrIndex(ld) < rd {
+		return false
+	}
+	found := false
+	allInstrs(fn, func(in ssa.Instruction) {
+		df, ok := in.(*ssa.Defer)
+		if !ok {
+			return
+		}
+		mc, ok := df.Call.Value.(*ssa.MakeClosure)
+		if !ok {
+			return
+		}
+		lit := mc.Fn.(*ssa.Function)
+		var fvRes *ssa.FreeVar
+		for i, bnd := range mc.Bindings {
+			if bnd == ssa.Value(resVar) && i < len(lit.FreeVars) {
+				fvRes = lit.FreeVars[i]
+			}
+		}
+		if fvRes == nil {
+			return
+		}
+		allInstrs(lit, func(in2 ssa.Instruction) {
+			c, ok := in2.(*ssa.Call)
+			if !ok || calleeName(c) != closeCallee {
+				return
+			}
+			for _, b2 := range lit.Blocks {
+				for _, in3 := range b2.Instrs {
+					if st, ok := in3.(*ssa.Store); ok && st.Addr == ssa.Value(fvRes) && derivesFrom(st.Val, c) {
+						found = true
+					}
+				}
+			}
+		})
+	})
+	return found
+}
